@@ -738,6 +738,11 @@ def run_caught(job, limit=ALARM_S):
 #     the exception that leaves main().
 HOST_CASES = {
     "plain": ["1 + 1"],
+    # a stream the program has closed, handed to every native that reads from it
+    "closed_stdin_process": ["require IO; IO->close(stdin); IO->process_lines(stdin, fn(l) l)"],
+    "closed_stdin_reads": ["require IO; IO->close(stdin); [do IO->readln(stdin) catch all 1 end, do IO->read_all(stdin) catch all 2 end, "
+                           "do IO->read(stdin) catch all 3 end, do for l in stdin do l end catch all 4 end]"],
+    "closed_in_callback": ["require IO; def i = IO->str_input('a\\nb\\nc'); IO->process_lines(i, fn(l) IO->close(i))"],
     "error": ["error 'boom'"],
     "self_list": ["def a = []; append(a, a); a"],
     "self_list_error": ["def a = []; append(a, a); error a"],
